@@ -22,8 +22,8 @@ def ivec(rng, n):
     return np.array([rng.randrange(-3, 4) for _ in range(n)], dtype=float)
 
 
-def q(v):
-    return so.qvec(v, [None] * len(np.ravel(v)), 1e-9)
+def q(v, rtol=1e-9):
+    return so.qvec(v, [None] * len(np.ravel(v)), rtol)
 
 
 def observe(seed):
@@ -32,6 +32,9 @@ def observe(seed):
     if md is None:
         return {'skip': 'rejected'}
     adj, jv, kinds = [], [], []
+    # results of ScipyKrylov solves are accurate to the GMRES tolerance only: they are quantised at 1e-6 (DESIGN.md C01)
+    kry = any((sv.get('ln') or {}).get('name') == 'krylov' for sv in md['solvers'].values())
+    qs = (lambda v: q(v, 1e-6)) if kry else q
     try:
         # ---- public API: jvp / vjp on the declared variables of interest --------------------------------
         p = ob.build(md, {'mode': 'rev'})
@@ -68,11 +71,11 @@ def observe(seed):
                 jtw = [np.ravel(rr[w])[so.voi_positions(md, d)] for w, d in zip(wrts, md['desvars'])]
                 na, nb = len(ofs), len(wrts)
                 jv.append({'mode': 'fwd', 'of': list(range(1, na + 1)), 'wrt': list(range(1, nb + 1)),
-                           'seed': [q(v) for v in vs], 'res': [q(x) for x in jfv]})
+                           'seed': [q(v) for v in vs], 'res': [qs(x) for x in jfv]})
                 jv.append({'mode': 'rev', 'of': list(range(1, na + 1)), 'wrt': list(range(1, nb + 1)),
-                           'seed': [q(w) for w in ws], 'res': [q(x) for x in jtw]})
+                           'seed': [q(w) for w in ws], 'res': [qs(x) for x in jtw]})
                 adj.append({'v': q(np.concatenate(vs)), 'w': q(np.concatenate(ws)),
-                            'av': q(np.concatenate(jfv)), 'atw': q(np.concatenate(jtw))})
+                            'av': qs(np.concatenate(jfv)), 'atw': qs(np.concatenate(jtw))})
                 kinds.append('jacvec')
         # ---- internal operators of every group ---------------------------------------------------------
         p3 = ob.build(so.without_vois(md), {'mode': 'rev'})
@@ -120,7 +123,7 @@ def observe(seed):
             g._dresiduals.set_val(0.0)
             g.run_solve_linear('rev')
             stu = g._dresiduals.asarray(copy=True)
-            adj.append({'v': q(r2), 'w': q(u2), 'av': q(sr), 'atw': q(stu)})
+            adj.append({'v': q(r2), 'w': q(u2), 'av': qs(sr), 'atw': qs(stu)})
             kinds.append('solve_linear:' + gp)
     except AnalysisError:
         return {'skip': 'noconv'}
